@@ -404,8 +404,8 @@ func (info rawHelloInfo) looksLikeFirefox() bool {
 	if len(info.Curves) > len(requiredCurves) {
 		// newer Firefox (55 Nightly?) may have additional curves at end of list
 		allowedCurves := []tls.CurveID{256, 257}
-		for i := range allowedCurves {
-			if info.Curves[len(requiredCurves)+i] != allowedCurves[i] {
+		for i, curve := range info.Curves[len(requiredCurves):] {
+			if i >= len(allowedCurves) || curve != allowedCurves[i] {
 				return false
 			}
 		}
